@@ -203,7 +203,7 @@ CLAIMS = {
           "while distinct values stay within capacity; per-value override via thrFor. EVERY HISTORY: run_refines_buckets (for every request sequence of any length whose values belong to a "
           "set of distinct values no larger than the capacity, the controller's verdicts are exactly those of independent per-value buckets; invariant CtrlInv - keys distinct, inside the "
           "universe, both counters in sync - kept by every check: checkReject_inv, checkReject_step, checkReject_sync, Lru.room_of_universe, Lru.keys_addIfAbsent/keys_get/keys_store: nothing "
-          "is ever evicted) and controller_token_bound (through the controller, for every value, the admitted tokens never exceed q_v+b+q_v*(t-f)/d whatever the other values do). Tied to hotspot/traffic_shaping/reject.rs, mod.rs, cache.rs, slot.rs through EntryBuilder; "
+          "is ever evicted) and controller_token_bound (through the controller, for every value, the admitted tokens never exceed q_v+b+q_v*(t-f)/d whatever the other values do); check_is_checkReject (the hotspot slot's dispatch runs exactly this step). Tied to hotspot/traffic_shaping/reject.rs, mod.rs, cache.rs, slot.rs through EntryBuilder; "
           "Spec on traces: one isolated reference bucket per (rule, value) must reproduce the implementation's decisions, plus the explicit token bound."),
     design_ref="DESIGN.md §6 C06",
     technique="Lean 4 invariant + refinement proofs (per-value bucket, LRU-as-map) + differential correspondence + isolated-reference Spec oracle on implementation traces",
@@ -214,7 +214,7 @@ CLAIMS = {
           "flow_spacing_run (for every arrival history the scheduled times of admitted requests are at least the later request's cost apart), flow_block_keeps_schedule, "
           "flow_caller_held + flowSlot_clock_mono (the slot returns with the clock at arrival+wait: the caller is really held). Hotspot throttling per value: hs_throttle_wait / "
           "_pass / _blocked / _first, checkThrottle_cell (controller = per-value schedule on that value's cell, other values untouched), throttle_run_refines_schedules (every request "
-          "sequence over at most `capacity` distinct values: verdicts incl. wait amounts are those of independent per-value schedules; TimeInv, nothing evicted), hs_caller_held with the ms->ns conversion. "
+          "sequence over at most `capacity` distinct values: verdicts incl. wait amounts are those of independent per-value schedules; TimeInv, nothing evicted; check_is_checkThrottle), hs_caller_held with the ms->ns conversion. "
           "Tied to flow/traffic_shaping/throttling.rs, flow/slot.rs, hotspot/traffic_shaping/throttling.rs, hotspot/slot.rs, utils/time.rs under a virtual clock whose sleep hook "
           "advances time; Spec on traces: per-rule schedule references (spacing, bounded queueing, rejection exactly otherwise, elapsed virtual time == scheduled wait)."),
     design_ref="DESIGN.md §6 C07",
